@@ -365,6 +365,18 @@ def runFilter (c : Json) : Option Json := do
   let out := filterT cap T p
   pure (Json.mkObj [("cols", Json.arr (out.map ivsToJson).toArray)])
 
+/-- stream `joinnarrow`: `joinNarrow` on the column types of the two sides of a join -/
+def runJoinNarrow (c : Json) : Option Json := do
+  let colsJ ← (c.getObjVal? "cols").toOption >>= fun a => a.getArr?.toOption
+  let cols ← colsJ.toList.mapM jPairs?
+  let T := cols.map (fromIntervals cap)
+  let nl ← (c.getObjVal? "nl").toOption >>= jInt?
+  let p ← (c.getObjVal? "pred").toOption >>= predOfJson?
+  let kindS ← (c.getObjVal? "kind").toOption >>= fun s => s.getStr?.toOption
+  let kind : JoinKind := match kindS with | "inner" => .inner | "left" => .left | "right" => .right | _ => .full
+  let (L, R) := joinNarrow cap kind (T.take nl.toNat) (T.drop nl.toNat) p
+  pure (Json.mkObj [("left", Json.arr (L.map ivsToJson).toArray), ("right", Json.arr (R.map ivsToJson).toArray)])
+
 /-- clipping model on Float: rows (unit, group, value|null) -> per-group clipped sums; compared with the sums the real
 relation produced on SQLite (passed in `aux`) -/
 def runClip (c : Json) (aux : Json) : Option Json := do
@@ -862,6 +874,7 @@ def handle (line : String) : Json :=
       | "injlat" => runInjLat c
       | "dpevent" => runDpEvent c
       | "hierops" => runHierOps c
+      | "joinnarrow" => runJoinNarrow c
       | "splitlist" => runSplitList c
       | "injtime" => runInjTime c
       | "exprprint" => runExprPrint c
